@@ -5,7 +5,7 @@
 
     kind 0  sequential op sequence on a fresh FileStorage: model = [fs_run]; spec = [spec_trace]
             (documented key semantics from the history) on the implementation's results.
-    kind 1  system-call trace (strace) of one Store / Load: model = the solo run of the LTS with the
+    kind 1  system-call trace (strace) of one Store / Load / Delete of a file key: model = the solo run of the LTS with the
             observed write/read sizes; spec = the structural facts the LTS rests on (temp file
             created O_EXCL in the destination's directory, only the temp fd is written,
             fsync, close, then rename temp -> destination; Load opens once, read-only).
@@ -145,9 +145,32 @@ Definition load_trace_ok (vlen : Z) (l : list sev) : bool :=
 Definition nat_args (c : Z) (l : list sev) : list nat :=
   map (fun e => Z.to_nat (sarg e)) (filter (fun e => scode e =? c) l).
 
+(** Delete of a file key: exactly one unlink, of the destination; nothing created, written,
+    renamed *)
+Definition delete_trace_ok (l : list sev) : bool :=
+  match filter core l with
+  | [u] => (scode u =? 9) && (sclass u =? 1)
+  | _ => false
+  end.
+Definition lts_delete : option (list Z) :=
+  let pre := solo_store 7%nat (zeros 3) [3%nat] in
+  let ls := [LSpawnDelete 1%nat 7%nat; LUnlink 1%nat] in
+  match run init_empty (pre ++ ls) with
+  | Some s => match thr s 1%nat, named_value s 7%nat with
+              | DDone _, None => Some (map sysop_code (sys_trace ls))
+              | _, _ => None
+              end
+  | None => None
+  end.
+
 Definition check_sys (which : Z) (vlen : Z) (l : list sev) : Z :=
   let n := Z.to_nat vlen in
-  if which =? 0 then
+  if which =? 2 then
+    match lts_delete with
+    | Some c1 => code (zlist_eqb c1 (codes l)) (delete_trace_ok l)
+    | None => code false (delete_trace_ok l)
+    end
+  else if which =? 0 then
     let ws := nat_args 2 l in
     match lts_store n ws with
     | Some c1 => code (zlist_eqb c1 (codes l)) (store_trace_ok vlen l)
@@ -165,7 +188,9 @@ Definition check_sys (which : Z) (vlen : Z) (l : list sev) : Z :=
 
 (** ** kind 2: timed history on one key.  Values carry unique ids (id of the Store that
     wrote them; the initial value is the Store with the smallest interval); a Load reports
-    the id it read, 0 for not-exist, -1 for anything that is not a whole value. *)
+    the id it read, 0 for not-exist, -1 for anything that is not a whole value; a Store that
+    returned an error has id -2 (no Store may fail: the key's directory exists and nothing
+    is deleted in these runs). *)
 Record hev := Hev { is_load : bool; t0 : Z; t1 : Z; vid : Z }.
 Definition get_hev : dec hev := b <- get_bool ;; a <- get_z ;; c <- get_z ;; v <- get_z ;; ret (Hev b a c v).
 
@@ -188,6 +213,8 @@ Definition no_inversion (a b : hev * option hev) : bool :=
   | _, _ => true
   end.
 Definition hist_ok (h : list hev) : bool :=
+  (* every Store completed (a Store reported as failed has id -2) *)
+  forallb (fun e => is_load e || (0 <? vid e)) h &&
   let stores := filter (fun e => negb (is_load e)) h in
   let loads := map (fun l => (l, find_store stores (vid l))) (filter is_load h) in
   forallb (load_ok stores) loads &&
